@@ -10,9 +10,29 @@ from google.longrunning import operations_pb2  # noqa: E402
 from google.protobuf import any_pb2  # noqa: E402
 
 
+OPS_CHANNELS = []
+
+
 def main(p):
     a = p.args
     out = dict(types_present=[], services={}, calls={})
+    # clients that the emitted code builds on its own (the extended-operation polling client) get anonymous credentials and
+    # a channel that answers every poll with a finished operation
+    import google.auth
+    from google.api_core import grpc_helpers
+    from google.auth.credentials import AnonymousCredentials as _Anon
+
+    def _ops_channel(*a_, **k_):
+        ch = seams.FakeChannel(clock)
+
+        def responder(kind, path):
+            Op = p.cls(f'.{a["proto_package"]}.Operation')
+            return Op(name='op1', status=1).SerializeToString()      # Status.DONE
+        ch.responder = responder
+        OPS_CHANNELS.append(ch)
+        return ch
+    google.auth.default = lambda *a_, **k_: (_Anon(), 'proj')
+    grpc_helpers.create_channel = _ops_channel
     try:
         lib = probelib.Lib(a['package'])
     except BaseException as e:
@@ -75,6 +95,15 @@ def main(p):
                 fut = getattr(client, mname)(request=probelib.native(req))
                 r = fut.result()
                 rec['returned'] = [type(r).__name__, probelib.wire_of(r).hex()]
+            elif rpc == 'StartX':
+                # extended operation: the call returns a future that polls the operation service through its polling method
+                Op = p.cls(f'.{tp}.Operation')
+                ch.script = [Op(name='op1', status=2).SerializeToString()]          # Status.PENDING
+                del OPS_CHANNELS[:]
+                fut = getattr(client, mname)(request=probelib.native(req))
+                rec['returned'] = [type(fut).__name__, '']
+                fut.result()
+                rec['polls'] = [dict(path=e['path'], raw=e['raw'].hex()) for c_ in OPS_CHANNELS for e in c_.log]
             elif rpc == 'ListItems':
                 pg = Dresp()
                 pg.items.add(name='i0')
